@@ -18,6 +18,7 @@
 import GraphiqModel.Proofs.Compare
 import GraphiqModel.Proofs.CompareRepairNorm
 import GraphiqModel.Proofs.CompareRepairStab
+import GraphiqModel.Proofs.CompareRepairRenEq
 namespace Graphiq.C15
 open Graphiq Graphiq.Export Graphiq.Compare
 
@@ -309,6 +310,26 @@ theorem dedup_sound (l : List Circuit) (hl : ∀ c ∈ l, WellFormed c) :
     (removeRedundant2 l).Sublist l ∧
     ∀ x ∈ l, x ∈ removeRedundant2 l ∨ ∃ k ∈ removeRedundant2 l, ∃ π, RenamedBy π (flatC k) (flatC x) :=
   removeRedundant2_sound l (fun c hc => wellFormed_opOK c (hl c hc))
+
+/-- **the original full statements of §3, now theorems**: `iso_sound_statement` and `dedup_iso_statement` (refuted above
+    for the matcher before the repair) hold literally — with the executable reference notion `renEq` the harness
+    evaluates by brute force — for the repaired functions on well-formed circuits -/
+theorem original_statements_hold_for_the_repaired_functions :
+    (∀ c1 c2 : Circuit, WellFormed c1 → WellFormed c2 → circuitIsIsomorphic2 c1 c2 = .ok true → renEq c1 c2 = true) ∧
+    (∀ l : List Circuit, (∀ c ∈ l, WellFormed c) →
+      ∀ x ∈ l, x ∈ removeRedundant2 l ∨ ∃ k ∈ removeRedundant2 l, renEq k x = true) := by
+  constructor
+  · intro c1 c2 h1 h2 h
+    obtain ⟨π, hπ⟩ := iso_sound c1 c2 h1 h2 h
+    exact hπ.renEq (wellFormed_opOK c1 h1) (wellFormed_opOK c2 h2)
+  · intro l hl x hx
+    obtain ⟨hsub, hall⟩ := dedup_sound l hl
+    rcases hall x hx with h | ⟨k, hk, π, hπ⟩
+    · exact Or.inl h
+    · refine Or.inr ⟨k, hk, ?_⟩
+      have hkl := hsub.subset hk
+      rw [← renEq_flatC]
+      exact hπ.renEq (flat_opOK _ _ (wellFormed_opOK k (hl k hkl))) (flat_opOK _ _ (wellFormed_opOK x (hl x hx)))
 
 /-! ## Non-vacuity -/
 
